@@ -60,6 +60,9 @@ inductive SType where
   | enum (cs : List (List UInt8 × List Bool))
       -- a type all of whose constructors are bare tags; Go holds the value as a string constant: (its bytes, tag)
   | outList                       -- OutList n of send-message actions (see `specOutList`)
+  | chainOf (t : SType)
+      -- action_list_extended$_ action:X prev:^(…) : a non-empty list, every element but the first behind one more
+      -- reference; the list ends where there is no further element
   | named (n : String)
   | goPtr (t : SType)             -- Go holds the value through a pointer: dump `(x)`; no TL-B meaning
 inductive SFields where
@@ -83,7 +86,8 @@ def nameAliases : List (List Char × List Char) := [
   ("message".toList, "body".toList),            -- wallet.SignedMsgBody.Message   : the signed body
   ("stateinit".toList, []),                     -- tlb.AccountState.AccountActive.StateInit : `_:StateInit`
   ("vm".toList, []),                            -- tlb.TrComputePhase.TrPhaseComputeVm.Vm   : the anonymous `^[ … ]`
-  ("msgs".toList, [])]                          -- tlb.Transaction.Msgs                     : the anonymous `^[ … ]`
+  ("msgs".toList, []),
+  ("extendedactions".toList, "extended".toList)] -- wallet.MessageV5.*.ExtendedActions               : extended                          -- tlb.Transaction.Msgs                     : the anonymous `^[ … ]`
 
 /-- the Go field at a position carries the name the schema gives to the field at that position -/
 def nameAgrees (goName schemaName : String) : Bool :=
@@ -185,6 +189,13 @@ def specOutList : Val → Option Chunk
     else none
   | _ => none
 
+/-- one step of a reference chain: the element `c`, then (unless it is the last) one more reference to the cell with
+the serialisation `r` of the remaining elements -/
+def chainStep (c : Option Chunk) (rest : Val) (r : Option Chunk) : Option Chunk :=
+  match c with
+  | some c => if rest.isNil then some c else r.map fun r => (c.1, c.2 ++ [Cell.mk 0 0 r.1 r.2])
+  | none => none
+
 def specPayloadItems : Val → Option Chunk
   | .nil => some ([], [])
   | .cons (.cons (.cons (.cell c) .nil) (.cons (.int mode) .nil)) rest =>
@@ -257,6 +268,9 @@ def specChunk (senv : SEnv) : Nat → SType → Val → Option Chunk
       | .bytes bs => (cs.find? fun c => c.1 == bs).map fun c => (c.2, [])
       | _ => none)
     | .outList => specOutList v
+    | .chainOf t => (match v with
+      | .cons x rest => chainStep (specChunk senv fuel t x) rest (specChunk senv fuel (.chainOf t) rest)
+      | _ => none)
     | .named n => (match senv n with
       | some t => specChunk senv fuel t v
       | none => none)
@@ -314,6 +328,7 @@ def byName (senv : SEnv) : Nat → SType → Val → Val
     | .goPtr t => (match v with
       | .cons x .nil => .cons (byName senv fuel t x) .nil
       | _ => v)
+    | .chainOf t => Val.list (v.toList.map fun x => byName senv fuel t x)
     | .hashmapE _ _ st => (match v with
       | .cons ks (.cons vs .nil) => .cons ks (.cons (Val.list (vs.toList.map fun x => byName senv fuel st x)) .nil)
       | _ => v)
@@ -591,6 +606,43 @@ def Transaction : SType := .seq
 /-- OutList n of `action_send_msg` (see `specOutList`) -/
 def OutList : SType := .outList
 
+/-- wallet v5 (abi/schemas/wallets.xml names them by their tags; wallet-contract-v5 types.tlb):
+    action_add_ext#02 addr:MsgAddressInt = ExtendedAction;
+    action_delete_ext#03 addr:MsgAddressInt = ExtendedAction;
+    action_set_signature_auth_allowed#04 allowed:(## 1) = ExtendedAction; -/
+def W5ExtendedAction : SType := .sum
+  (.cons "action_add_ext" (tagBits "#02") "AddExtension" (.goPtr (.seq (.cons "addr" .msgAddress .nil)))
+  (.cons "action_delete_ext" (tagBits "#03") "RemoveExtension" (.goPtr (.seq (.cons "addr" .msgAddress .nil)))
+  (.cons "action_set_signature_auth_allowed" (tagBits "#04") "SetSignatureAllowed"
+    (.goPtr (.seq (.cons "allowed" .bool .nil)))
+  .nil)))
+
+/-- action_list_extended$_ {m:#} {n:#} action:ExtendedAction prev:^(ActionList n m) = ActionList n (m+1);
+the contract (and tongo) end the list at the cell that has no further reference -/
+def W5ExtendedActions : SType := .chainOf (.named "W5ExtendedAction")
+
+/-- abi/schemas/wallets.xml:
+    signed_internal#73696e74 wallet_id:uint32 valid_until:uint32 seqno:uint32
+      actions:(Maybe ^W5Actions) extended:(Maybe W5ExtendedActions) signature:bits512 = InternalMsgBody;
+    signed_external#7369676e wallet_id:uint32 valid_until:uint32 seqno:uint32
+      actions:(Maybe ^W5Actions) extended:(Maybe W5ExtendedActions) signature:bits512 = ExternalMsgBody;
+    extension_action#6578746e query_id:uint64 actions:(Maybe ^W5Actions) extended:(Maybe W5ExtendedActions)
+      = InternalMsgBody;
+(W5Actions = OutList of action_send_msg.) -/
+def WalletV5R1Body : SType := .sum
+  (.cons "signed_internal" (tagBits "#73696e74") "SignedInternal" (.goPtr (.seq
+    (.cons "wallet_id" (.nat 32) (.cons "valid_until" (.nat 32) (.cons "seqno" (.nat 32)
+    (.cons "actions" (.maybe (.ref .outList)) (.cons "extended" (.maybe W5ExtendedActions)
+    (.cons "signature" (.bits 512) .nil))))))))
+  (.cons "signed_external" (tagBits "#7369676e") "SignedExternal" (.goPtr (.seq
+    (.cons "wallet_id" (.nat 32) (.cons "valid_until" (.nat 32) (.cons "seqno" (.nat 32)
+    (.cons "actions" (.maybe (.ref .outList)) (.cons "extended" (.maybe W5ExtendedActions)
+    (.cons "signature" (.bits 512) .nil))))))))
+  (.cons "extension_action" (tagBits "#6578746e") "ExtensionAction" (.goPtr (.seq
+    (.cons "query_id" (.nat 64) (.cons "actions" (.maybe (.ref .outList))
+    (.cons "extended" (.maybe W5ExtendedActions) .nil)))))
+  .nil)))
+
 def senvList : List (String × SType) := [
   ("ExtraCurrencyCollection", ExtraCurrencyCollection), ("CurrencyCollection", CurrencyCollection),
   ("MsgAddress", MsgAddress), ("CommonMsgInfo", CommonMsgInfo), ("TickTock", TickTock), ("SimpleLib", SimpleLib), ("StateInit", StateInit),
@@ -603,7 +655,8 @@ def senvList : List (String × SType) := [
   ("TrStoragePhase", TrStoragePhase), ("TrCreditPhase", TrCreditPhase), ("TrComputePhase", TrComputePhase),
   ("TrActionPhase", TrActionPhase), ("TrBouncePhase", TrBouncePhase), ("SplitMergeInfo", SplitMergeInfo),
   ("TransactionDescr", TransactionDescr), ("HashUpdate", HashUpdate), ("Transaction", Transaction),
-  ("OutList", OutList)]
+  ("OutList", OutList), ("W5ExtendedAction", W5ExtendedAction), ("W5ExtendedActions", W5ExtendedActions),
+  ("WalletV5R1Body", WalletV5R1Body)]
 
 def senv : SEnv := fun n => (senvList.find? (·.1 == n)).map (·.2)
 
